@@ -21,7 +21,7 @@ class ScopeProgram:
                 pool.sort(key=lambda p: 0 if p in FIELDS else 1)
             self.colliding[u] = pool[:k]
         self.fresh = {u: ["%s_%d_z" % (u.lower(), i) for i in range(k)] for u, (k, _f) in self.units.items()}
-        body = ["{M2}.setn({M0} + 1);", "echo({M0}); echo({M1});", "echo({M2}.addt({M1}));", "echo(helper({M2}, {M0}));",
+        body = ["{ SG<P> gq = new SG<P>(); echo(gq.get()); }", "echo(SN.get());", "{M2}.setn({M0} + 1);", "echo({M0}); echo({M1});", "echo({M2}.addt({M1}));", "echo(helper({M2}, {M0}));",
                 "echo({M0} + {M1});", "echo({M2}.viaThis({M1}));", "{M0} = {M0} + 1;", "echo({M2}.n); echo({M2}.t);",
                 "{ P q = new P({M1}, {M0}); echo(q.addt(1)); }"]
         r.shuffle(body)
@@ -42,7 +42,9 @@ class ScopeProgram:
             "    public function addt(int {C0}) -> int { t = t + {C0}; return t + n; }",
             "    public function viaThis(int {D0}) -> int { int {D1} = {D0} * 3; this.n = this.n + {D1}; return this.n; }",
             "}",
-            "function helper(P {E0}, int {E1}) -> int { int {E2} = {E1} + 2; {E0}.setn({E2}); return {E0}.addt({E1}) + {E2}; }",
+            "class SG<T> { public static int k = %d; public static int w = k * 2 + 1; public static int v = w + k; public constructor() -> SG<T> = default; public function get() -> int { return w * 100 + v; } }" % c[4],
+            "class SN { public static int x = %d; public static int k = x + 5; public constructor() -> SN = default; public static function get() -> int { return k * 3 + x; } }" % c[5],
+            "function helper(P {E0}, int {E1}) -> int { int {E2} = {E1} + 2; {E0}.setn({E2}); { SG<SN> gs = new SG<SN>(); {E2} = {E2} + gs.get() - gs.get(); } return {E0}.addt({E1}) + {E2}; }",
             "function main() -> void {",
             "    int {M0} = %d; int {M1} = %d;" % (c[2], c[3]),
             "    P {M2} = new P({M0}, {M1});"] + ["    " + b for b in self.body] + ["}"])
